@@ -126,6 +126,17 @@ def _affected(node: Any, m: I.Member) -> tuple[set, set]:
     return set(), ids_of(node)
 
 
+def _no_self_insertion(donor: Any, target: Any) -> None:
+    """A node cannot be inserted into itself or into one of its own descendants."""
+    if donor is None or not isinstance(donor, models.RawTreeModel):
+        if donor is target and donor is not None:
+            raise Unresolvable('donor is the target itself')
+        return
+    for _, n in W.iter_nodes(donor):
+        if n is target:
+            raise Unresolvable('donor contains the target')
+
+
 def exec_set_raw(sess: Session, op: dict, step: int) -> Effect:
     node = sess.resolve(op['t'])
     m = I.members_of(node).get(op['m'])
@@ -135,6 +146,7 @@ def exec_set_raw(sess: Session, op: dict, step: int) -> Effect:
     recipes = [op['v']] if op['v'] is not None else []
     eff.touched = {sess.root_key(op['t'])} | donor_roots(recipes)
     donor = make_donor(sess, op['v'])
+    _no_self_insertion(donor, node)
     cur = getattr(node, m.name)
     if donor is None and cur is None:
         eff.outcome = 'skipped'
@@ -194,6 +206,14 @@ def _val_eq(a: Any, b: Any) -> bool:
     return a == b
 
 
+def _cost_normal_form(cost: Any) -> bool:
+    """One of the concrete forms the statement lists: at most one of number /
+    currency / amount / compound amount, at most one date, label and merge mark."""
+    comps = list(cost.raw_cost.raw_components)
+    main = [c for c in comps if isinstance(c, (models.NumberExpr, models.Currency, models.Amount, models.CompoundAmount))]
+    return len(main) <= 1 and all(sum(1 for c in comps if isinstance(c, t)) <= 1 for t in (models.Date, models.EscapedString, models.Asterisk))
+
+
 def exec_set_val(sess: Session, op: dict, step: int) -> Effect:
     node = sess.resolve(op['t'])
     m = I.members_of(node).get(op['m'])
@@ -205,6 +225,7 @@ def exec_set_val(sess: Session, op: dict, step: int) -> Effect:
     if isinstance(raw_v, dict) and 'node' in raw_v:
         recipes = [raw_v['node']]
         v = make_donor(sess, raw_v['node'])
+        _no_self_insertion(v, node)
     else:
         v = dec(raw_v)
     eff.touched = {sess.root_key(op['t'])} | donor_roots(recipes)
@@ -223,6 +244,9 @@ def exec_set_val(sess: Session, op: dict, step: int) -> Effect:
     group = _group_of(node, m.name)
     expect_reject = False
     rec = None
+    if group == 'cost' and m.name in ('number_per', 'number_total', 'currency') and not _cost_normal_form(node):
+        sess.stats['cost_not_in_a_listed_form'] += 1   # e.g. raw edits added a second amount-like component
+        group = 'cost_irregular'
     if group == 'cost' and m.name in ('number_per', 'number_total', 'currency'):
         rec = {k: vals_before[k] for k in ('number_per', 'number_total', 'currency')}
         rec[m.name] = v
@@ -271,6 +295,8 @@ def exec_set_val(sess: Session, op: dict, step: int) -> Effect:
                 eff.v('C09', 'cost_group', step, f'after {m.name} = {v!r} from {({k2: vals_before[k2] for k2 in rec})!r} '
                       f'{k} reads {vals_after.get(k)!r}, record model says {rec[k]!r} (text {print_model(node)!r})')
                 break
+    elif group == 'cost_irregular':
+        return eff      # not one of the forms the statement covers: the record model does not apply
     else:
         got = vals_after.get(m.name)
         if not _val_eq(got, v):
@@ -376,6 +402,9 @@ def exec_seq(sess: Session, op: dict, step: int) -> Effect:
     is_view = m.kind not in ('raw_repeated', 'raw_repeated_comments')
     eff = Effect(f'seq_{kind}:{"view" if is_view else "raw"}', 'V' if is_view else 'N', f'{type(owner).__name__}.{mname}')
     vals, recipes = _decode_items(sess, op.get('items', []))
+    for x in vals:
+        if isinstance(x, models.RawModel):
+            _no_self_insertion(x, owner)
     owner_key = sess.key_of_node(owner)
     eff.touched = {owner_key} | donor_roots(recipes)
     raw_member = _raw_member_of(owner, mname)
@@ -397,7 +426,7 @@ def exec_seq(sess: Session, op: dict, step: int) -> Effect:
     if kind in ('remove', 'discard'):
         if 'val' in op:
             target = dec(op['val'])
-            matches = [i for i, x in enumerate(cur) if not isinstance(x, models.RawModel) and x == target and type(x) == type(target)]
+            matches = [i for i, x in enumerate(cur) if x == target]   # list.remove compares with ==
         else:
             i = op['idx_of']
             target = cur[i] if -len(cur) <= i < len(cur) else None
@@ -579,6 +608,7 @@ def exec_map(sess: Session, op: dict, step: int) -> Effect:
         if isinstance(rv, dict) and 'node' in rv:
             recipes = [rv['node']]
             v = make_donor(sess, rv['node'])
+            _no_self_insertion(v, owner)
         else:
             v = dec(rv)
     eff.touched = {sess.key_of_node(owner)} | donor_roots(recipes)
